@@ -143,13 +143,17 @@ Theorem C07_escape_loop_is_replace : forall c rep pre s,
 Proof. exact xw_escape_in_replace. Qed.
 Print Assumptions C07_escape_loop_is_replace.
 
-(* span text: for ALL strings the written character data has no raw `<`, every `&` starts a predefined entity, and an XML
-   parser reads the original string back *)
+(* span text (writer.rs since 94b8b4d: `&` and `>` replaced, then xmlwriter's `<`): for ALL strings the written character data has no
+   raw `<`, no `]]>` (no raw `>` at all), every `&` starts a predefined entity, and an XML parser reads the original string back *)
 Theorem C07_text_escape_roundtrip : forall s, unescape (escape_text s) = s.
 Proof. exact text_roundtrip. Qed.
 Print Assumptions C07_text_escape_roundtrip.
-Theorem C07_text_escape_wf : forall s, char_data_wf (escape_text s) = true.
-Proof. exact text_wf. Qed.
+Theorem C07_text_escape_wf : forall s,
+  char_data_wf (escape_text s) = true /\ has_cdata_end (escape_text s) = false /\ has_byte 62 (escape_text s) = false.
+Proof.
+  intro s. pose proof (text_wf s) as H. split; [exact H|]. split; [|exact (text_no_gt s)].
+  unfold char_data_wf in H. apply andb_true_iff in H. destruct H as [_ H]. apply negb_true_iff in H. exact H.
+Qed.
 Print Assumptions C07_text_escape_wf.
 
 (* attribute values (ids, references, result names): for ALL strings and both quote options the value does not contain
@@ -176,16 +180,7 @@ Print Assumptions C07_attr_escape_guarded.
 (* non-vacuity: the seven bytes  x & y < QUOT z QUOT  as text, and  q QUOT u APOS o  as a double- and a single-quoted attribute value *)
 Example C07_nv_escape :
   escape_text [120; 38; 121; 60; 34; 122; 34] = [120; 38; 97; 109; 112; 59; 121; 38; 108; 116; 59; 34; 122; 34] /\
+  escape_text [93; 93; 62] = [93; 93; 38; 103; 116; 59] /\
   escape_attr false [113; 34; 117; 39; 111] = [113; 38; 113; 117; 111; 116; 59; 117; 39; 111] /\
   escape_attr true [113; 34; 117; 39; 111] = [113; 34; 117; 38; 97; 112; 111; 115; 59; 111].
 Proof. vm_compute. auto. Qed.
-
-(* ---- `>` is never escaped, so the CDATA-section-close delimiter `]]>` in a span text is written raw; XML 1.0 forbids it in
-   character data (roxmltree and usvg's own parser reject the written text): refuted with the witness `]]>`, class
-   text-cdata-end (proposed).  Guarded: a text without `]]>` is written without it (escaping cannot create one). *)
-Theorem C07_text_cdata_end_refuted : exists s, has_cdata_end s = true /\ escape_text s = s.
-Proof. exact text_cdata_end_refuted. Qed.
-Print Assumptions C07_text_cdata_end_refuted.
-Theorem C07_text_cdata_end_guarded : forall s, has_cdata_end s = false -> has_cdata_end (escape_text s) = false.
-Proof. exact text_cdata_end_guarded. Qed.
-Print Assumptions C07_text_cdata_end_guarded.
